@@ -82,6 +82,7 @@ fn profile() -> Profile {
         perms: false,
         tag_on_modifiers: false,
         extra: 0,
+        tiny_patterns: true,
     }
 }
 
